@@ -50,13 +50,19 @@ var extraAnchors = map[string][]string{
 
 // derivedDepth > 0 adds the repository functions statically called (transitively, up to that depth) from the anchored
 // functions and their literals.
-var derivedDepth = func() int {
+// Quick tier: depth 2. Thorough tier (and the reference signatures): the whole static call closure inside the repository.
+const derivedDepthQuick, derivedDepthFull = 2, 64
+
+func derivedDepthOf(w *World) int {
 	if v := os.Getenv("VERIF_DERIVED"); v != "" {
 		n, _ := strconv.Atoi(v)
 		return n
 	}
-	return 2
-}()
+	if writeBaselineMode || (w != nil && w.Tier == "thorough") {
+		return derivedDepthFull
+	}
+	return derivedDepthQuick
+}
 
 // onlyLogged: the call's result is consumed by logging / metrics calls only (zap.Any("pack", util.MsgPackInfoForLog(p))):
 // the callee is a presentation helper, not part of the mechanism.
@@ -122,10 +128,10 @@ func onlyLogged(ci ssa.CallInstruction) bool {
 
 func anchoredFuncs(w *World, prop string) []*ssa.Function {
 	base := anchoredFuncs0(w, prop)
-	if derivedDepth <= 0 {
+	if derivedDepthOf(w) <= 0 {
 		return base
 	}
-	return append(base, derivedFuncs(w, base, derivedDepth)...)
+	return append(base, derivedFuncs(w, base, derivedDepthOf(w))...)
 }
 
 func derivedFuncs(w *World, base []*ssa.Function, depth int) []*ssa.Function {
@@ -1344,7 +1350,7 @@ func printDerivedCensus(w *World) {
 
 func printDerivedList(w *World, p string) {
 	b := anchoredFuncs0(w, p)
-	for _, f := range derivedFuncs(w, b, derivedDepth) {
+	for _, f := range derivedFuncs(w, b, derivedDepthOf(w)) {
 		fmt.Println(p, shortFn2(f))
 	}
 }
